@@ -17,6 +17,10 @@ func main() {
 		}
 		return
 	}
+	if len(os.Args) >= 4 && os.Args[1] == "dump" {
+		dump(os.Args[2:])
+		return
+	}
 	if len(os.Args) < 4 || os.Args[1] != "check" {
 		fmt.Fprintln(os.Stderr, "usage: vcheck check <ID> <quick|thorough>")
 		os.Exit(2)
